@@ -49,7 +49,9 @@ class StlPastifier(LtlPastifier, StlAstVisitor):
         self.ast = ast
         for spec in ast.specs:
             self.to_default_unit(spec)
-        h = StlHorizon()
+        # next / s_next look one sampling period ahead
+        self.sample = Fraction(ast.sampling_period * ast.U[ast.sampling_period_unit], ast.U[ast.unit])
+        h = StlHorizon(self.sample)
         horizons = dict()
         for spec in ast.specs:
             horizon = h.visit(spec, None)
@@ -437,12 +439,12 @@ class StlPastifier(LtlPastifier, StlAstVisitor):
         return node
 
     def visitNext(self, node, *args, **kwargs):
-        horizon = args[0] - 1
+        horizon = args[0] - self.sample
         child_node = self.visit(node.children[0], horizon)
         return child_node
 
     def visitStrongNext(self, node, *args, **kwargs):
-        horizon = args[0] - 1
+        horizon = args[0] - self.sample
         child_node = self.visit(node.children[0], horizon)
         return child_node
 
